@@ -161,3 +161,33 @@ def position_code(shape, dtype, seed=0):
     if dt.itemsize == 8:
         return code.astype(dt)
     return (code % np.uint64(int(np.iinfo(dt).max) + 1)).astype(dt)
+
+
+LAYOUTS = ("c", "fortran", "strided", "bigendian", "readonly", "transposed")
+
+
+def laid_out(arr, layout):
+    """The same array values in another memory layout (all of them are what
+    numpy-level callers hand to the I/O layer: views into a larger volume,
+    Fortran-ordered or transposed blocks of a re-oriented stack, big-endian
+    data of a big-endian file, read-only memory maps)."""
+    if layout == "c":
+        out = np.ascontiguousarray(arr).copy()
+    elif layout == "fortran":
+        out = np.asfortranarray(arr)
+    elif layout == "strided":
+        big = np.zeros(tuple(2 * s + 1 for s in arr.shape), arr.dtype)
+        out = big[tuple(slice(1, None, 2) for _ in arr.shape)]
+        out[...] = arr
+    elif layout == "bigendian":
+        out = arr.astype(arr.dtype.newbyteorder(">"))
+    elif layout == "readonly":
+        out = np.ascontiguousarray(arr).copy()
+        out.setflags(write=False)
+    elif layout == "transposed":
+        axes = tuple(reversed(range(arr.ndim)))
+        out = np.ascontiguousarray(arr.transpose(axes)).transpose(axes)
+    else:
+        raise ValueError(layout)
+    assert out.shape == arr.shape and np.array_equal(out, arr)
+    return out
